@@ -1,4 +1,6 @@
 """C14: effective pipelines follow stage-wise inheritance; malformed rules are rejected."""
+import json
+
 from casecheck import CaseCheck
 from verif import log, tlc_expect_ok
 
@@ -42,6 +44,14 @@ class C14(CaseCheck):
     def facts(self, case, bad):
         return {"reason": ",".join(sorted(bad["reasons"])), "mode": case["mode"],
                 "default_present": case["def"]["present"], "rule_bt": case["rule"]["bt"]}
+
+    def context(self, lines, cand):
+        # all rules of one (mode, default rule) go through one service and one rule factory, one after the
+        # other: what a rule leaves behind there can only show in the rules loaded after it
+        def key(c):
+            return json.dumps([c["mode"], c["def"]], sort_keys=True)
+        keys = {key(c) for c in cand}
+        return [c for c in lines if key(c) in keys]
 
     def corrupt(self, case):
         o = case["obs"]
